@@ -4,7 +4,7 @@ P="$(realpath "$1")"; shift
 if ! git -C /repo diff --quiet; then echo "/repo has uncommitted changes; refusing"; exit 3; fi
 if ! git -C /repo apply "$P"; then echo "patch does not apply: $P"; exit 3; fi
 for id in "$@"; do
-  out=$(/verif/run "$id" quick 2>&1); rc=$?
+  out=$(VERIF_EVIDENCE_DIR=/verif/target/mutant-evidence /verif/run "$id" quick 2>&1); rc=$?
   n=$(echo "$out" | grep -c '^VIOLATION')
   echo "$(basename "$P" .patch) $id exit=$rc violations=$n $(echo "$out" | grep -m1 'BUILD-FAILED')"
 done
